@@ -58,14 +58,14 @@ m = {
    "source_commits": hook_commits,
    "add_only": True},
  "engines": [{"name": "vsim", "path": "/verif/sim", "serves_properties": sorted(checks),
-   "kind_free_text": "deterministic simulation: SimWorld (in-process simulated stdin/stdout/stderr/exit/SIGINT/step clock with seeded, serialisable fault plans) + RealWorld (guard-off binary and rustc-compiled programs on simulator-owned pipes and files) + reference-model / real-interpreter oracles; seeded search, minimisation, replay files"}],
+   "kind_free_text": "deterministic simulation: SimWorld (in-process simulated stdin/stdout/stderr/exit/SIGINT/step clock with seeded, serialisable fault plans) + RealWorld (guard-off binary and rustc-compiled programs on simulator-owned pipes and files) + reference-model / real-interpreter oracles; seeded search, minimisation, replay files; every check runs under a supervisor process (a raw process exit, abort or hang inside the code under test is reported as a violation of the run that caused it) and repeats a slice of its runs with one fresh worker process per run (process-wide state)"}],
  "checks": [
    {"property_id": k, "quick_cmd": f"./check {k} quick", "thorough_cmd": f"./check {k} thorough",
     "evidence_file": f"/verif/evidence/{k}.json", "replay_cmd_template": f"./check {k} --replay {{path}}", "engine": "vsim",
     "level_claimed": {"category": v[0], "text": v[1], "design_ref": "DESIGN.md section " + refs[k]},
     "level_note": v[2], "technique": v[3]} for k, v in sorted(checks.items())],
  "not_applicable": [{"property_id": k, "reason": v} for k, v in sorted(na.items())],
- "notes": "see DESIGN.md; ./check selftest-determinism and ./check selftest-mutants prove determinism and sensitivity; KNOWN_FINDINGS.txt lists fixed defects (no open finding)",
+ "notes": "see DESIGN.md (section 9 is the build log). Self-tests: ./check selftest-determinism (per-run event-log hashes identical across worker counts and processes), ./check selftest-mutants (46 hand-written property-breaking patches, each must turn its check red), tools/selftest_seeded.sh (47 independently seeded changes in /verif/seeded), tools/selftest_benign.sh (31 property-preserving patches in /verif/benign must stay green), ./check selftest-refnum (reference arithmetic against Python). KNOWN_FINDINGS.txt lists nine fixed defects (no open finding).",
 }
 json.dump(m, open(os.path.join(H, 'MANIFEST.json'), 'w'), indent=1, ensure_ascii=False)
 print("MANIFEST.json written:", len(m["checks"]), "checks,", len(m["not_applicable"]), "not applicable")
